@@ -135,6 +135,9 @@ func checkProtocol(ev []mon.TraceEv) (violations []string, st protoStats) {
 					} else if s.early != e.Meta {
 						bad(e, "two lookups during one creation returned different early references (m%d, then m%d)", s.early, e.Meta)
 					}
+				} else if s.early != 0 {
+					// an early reference was already handed out: every later lookup during this creation must observe it
+					bad(e, "lookup (allowEarlyReference=%v) returned nothing although early reference m%d was already handed out during this creation", e.Allow, s.early)
 				}
 			case "failed":
 				st.failureThenLookup++
